@@ -184,6 +184,69 @@ func c24(repo string, out *fg.Out) error {
 		}
 	}
 
+	// ---- ownership of the payload handed to the hook: the Sender only QUEUES the slice, so the
+	// bytes must never change after hook(...) returns. AppendRawWithMeta must pass a freshly
+	// allocated envelope (`make`), AppendRaw passes the caller's slice (callers hand over ownership).
+	ownership := map[string]string{}
+	for _, fn := range []string{"AppendRaw", "AppendRawWithMeta"} {
+		fd := wf.FuncDecl("Writer", fn)
+		var hookCall *ast.CallExpr
+		for _, c := range fg.CallsNamed(fd.Body, "hook") {
+			hookCall = c
+		}
+		if hookCall == nil || len(hookCall.Args) != 1 {
+			return fmt.Errorf("Writer.%s: hook(&ReplicationEntry{…}) not found", fn)
+		}
+		payExpr := ""
+		ast.Inspect(hookCall.Args[0], func(n ast.Node) bool {
+			if kv, ok := n.(*ast.KeyValueExpr); ok && wf.Text(kv.Key) == "Payload" {
+				payExpr = wf.Text(kv.Value)
+			}
+			return true
+		})
+		kind := "other:" + payExpr
+		if len(fd.Type.Params.List) > 0 {
+			for _, prm := range fd.Type.Params.List {
+				for _, nm := range prm.Names {
+					if nm.Name == payExpr {
+						kind = "caller-slice"
+					}
+				}
+			}
+		}
+		// local variable: every assignment to it must be `make([]byte, …)` (copy() into it is fine)
+		if kind != "caller-slice" && payExpr != "" {
+			nAssign, nMake := 0, 0
+			ast.Inspect(fd.Body, func(n ast.Node) bool {
+				if as, ok := n.(*ast.AssignStmt); ok {
+					for i, l := range as.Lhs {
+						if wf.Text(l) == payExpr && i < len(as.Rhs) {
+							nAssign++
+							if strings.HasPrefix(wf.Text(as.Rhs[i]), "make([]byte,") {
+								nMake++
+							}
+						}
+					}
+				}
+				return true
+			})
+			if nAssign > 0 && nAssign == nMake {
+				kind = "fresh-make"
+			}
+		}
+		if containsText(wf, fd.Body, "Pool.Put(") || containsText(wf, fd.Body, "Pool.Get(") {
+			kind += "+pooled"
+		}
+		ownership[fn] = kind
+	}
+	senderCopies := false
+	for _, st := range stmts[:ei] {
+		t := sf.Text(st)
+		if strings.Contains(t, param+".Payload = ") && (strings.Contains(t, "append([]byte") || strings.Contains(t, "bytes.Clone(") || strings.Contains(t, "slices.Clone(")) {
+			senderCopies = true
+		}
+	}
+
 	// ---- coordinator wiring
 	cf, err := fg.ParseFile(repo, "internal/cluster/coordinator.go")
 	if err != nil {
@@ -374,6 +437,10 @@ func c24(repo string, out *fg.Out) error {
 	fmt.Fprintf(w, "/-- what the checkpoint hash covers on each side: \"session\" = every payload since the handshake, \"window\" = since the previous checkpoint -/\n")
 	fmt.Fprintf(w, "def hashScopeSender : String := %s\n", fg.LeanStr(senderScope))
 	fmt.Fprintf(w, "def hashScopeReceiver : String := %s\n", fg.LeanStr(recvScope))
+	fmt.Fprintf(w, "/-- who owns the payload bytes passed to the replication hook (the Sender queues the slice, it does not copy unless senderCopiesPayload) -/\n")
+	fmt.Fprintf(w, "def hookPayloadAppendRaw : String := %s\n", fg.LeanStr(ownership["AppendRaw"]))
+	fmt.Fprintf(w, "def hookPayloadAppendRawWithMeta : String := %s\n", fg.LeanStr(ownership["AppendRawWithMeta"]))
+	fmt.Fprintf(w, "def senderCopiesPayload : Bool := %s\n", b(senderCopies))
 	fmt.Fprintf(w, "def recvEntryOrder : List String := %s\n", strs(eo))
 	fmt.Fprintf(w, "def recvCkptOrder : List String := %s\n", strs(co))
 	fmt.Fprintf(w, "end Arc.Generated.C24\n")
@@ -385,6 +452,8 @@ func c24(repo string, out *fg.Out) error {
 	out.JSON["hmac_tolerance_sec"] = tolNs / 1_000_000_000
 	out.JSON["hash_scope_sender"] = senderScope
 	out.JSON["hash_scope_receiver"] = recvScope
+	out.JSON["hook_payload"] = ownership
+	out.JSON["sender_copies_payload"] = senderCopies
 	out.JSON["recv_entry_order"] = eo
 	out.JSON["recv_ckpt_order"] = co
 	return nil
